@@ -552,7 +552,7 @@ func TestC06(t *testing.T) {
 	if lib.Thorough() {
 		pb = 3
 	}
-	rep.Rule = fmt.Sprintf("history: 2 repos, 2 committed bundles (2 index files each), a label (+ a diamond with 2 done splits); operation under test in {upload, empty upload, diamond commit, label move, new label}: (1) a crash before/after EVERY store write (blob, metadata, vmetadata) of the operation, then the observer battery (ListBundles with page sizes 1..4, GetLatestBundle, Exists, full download of every visible bundle, labels), then a retry and the battery again; (2) the battery as a concurrent reader against the in-flight operation, all interleavings with <=%d preemptions at metadata-call granularity; (3) two uploaders of different content with the same preserved bundle ID and a reader downloading that bundle twice, all interleavings with one preemption fewer: at most one success, the visible bundle is the successful one's, the reader never sees it change, no metadata object rewritten; (4) every operation under a single transient failure at EVERY store call (fail before; writes: fail after landing / after reading the body; reads: hang then fail): no partial bundle visible, earlier objects intact, a reported success means the result is completely there, a retry works; (5) histories of 1..3 committed bundles with a run of 1..3 interrupted uploads at every position: listing, latest, existence and downloads; distinct = distinct (scenario, crash site, outcome)", pb)
+	rep.Rule = fmt.Sprintf("history: 2 repos, 2 committed bundles (2 index files each), a label (+ a diamond with 2 done splits); operation under test in {upload, empty upload, diamond commit, label move, new label}: (1) a crash before/after EVERY store write (blob, metadata, vmetadata) of the operation, then the observer battery (ListBundles with page sizes 1..4, GetLatestBundle, Exists, full download of every visible bundle, labels), then a retry and the battery again; (2) the battery as a concurrent reader against the in-flight operation, all interleavings with <=%d preemptions at metadata-call granularity; (3) two uploaders of different content with the same preserved bundle ID and a reader downloading that bundle twice, all interleavings with one preemption fewer: at most one success, the visible bundle is the successful one's, the reader never sees it change, no metadata object rewritten; (4) every operation under a single transient failure at EVERY store call (fail before; writes: fail after landing / after reading the body; reads: hang then fail): no partial bundle visible, earlier objects intact, a reported success means the result is completely there, a retry works; (5) histories of 1..3 committed bundles with a run of 1..3 interrupted uploads at every position: listing (full and keys-only), latest, existence and downloads; distinct = distinct (scenario, crash site, outcome)", pb)
 	ops := []string{"upload", "upload-empty", "commit", "label-move", "label-new"}
 	var scs []*lib.Scenario
 	var bounds [][2]int
@@ -656,6 +656,16 @@ func c06leftovers(t *testing.T, rep *lib.Report) {
 						}
 						if err != nil || strings.Join(got, ",") != strings.Join(ids, ",") {
 							rep.Violate("C06|leftovers|listing-differs-from-committed-set|"+shape, fmt.Sprintf("%s: ListBundles(page=%d)=%v (%v), committed %v", desc, page, got, err, ids), rp)
+							break
+						}
+						// the keys-only listing (what squash uses)
+						bs, err = core.ListBundles("r", st, core.BatchSize(page), core.WithMinimalBundle(true))
+						got = nil
+						for _, b := range bs {
+							got = append(got, b.ID)
+						}
+						if err != nil || strings.Join(got, ",") != strings.Join(ids, ",") {
+							rep.Violate("C06|leftovers|keys-only-listing-differs-from-committed-set|"+shape, fmt.Sprintf("%s: ListBundles(page=%d, keys only)=%v (%v), committed %v", desc, page, got, err, ids), rp)
 							break
 						}
 					}
